@@ -20,7 +20,11 @@ def specs():
     aux = Grid.from_positions([20.0, 21.0, 22.0], [1.0, 2.0, 3.0, 4.0])
     S2 = ArchSpec(layout=Layout({"traps": traps, "left": left, "right": right, "aux": aux}, {"left"}, {"traps"}, {"traps"},
                                 special_grid={"park": Grid.from_positions([-4.0, -2.0], [0.5, 1.5])}))
-    return {"plain": (S1, ["traps", "aux"]), "views": (S2, ["traps", "left", "right", "aux"])}
+    # zones registered AFTER the layout was constructed (the way gemini.logical.get_spec extends the base spec)
+    S3 = ArchSpec(layout=Layout({"traps": traps, "aux": aux}, {"traps"}, {"traps"}, {"traps"},
+                                special_grid={"park": Grid.from_positions([-4.0, -2.0], [0.5, 1.5])}))
+    S3.layout.static_traps.update({"left": Grid.from_positions([40.0, 42.0], [0.0, 3.0, 6.0]), "right": Grid.from_positions([50.0, 52.5], [1.0, 2.0, 3.0])})
+    return {"plain": (S1, ["traps", "aux"]), "views": (S2, ["traps", "left", "right", "aux"]), "late": (S3, ["traps", "left", "right", "aux"])}
 
 
 ZSHAPE = {"traps": (4, 3), "aux": (3, 4), "left": (2, 3), "right": (2, 3)}
@@ -206,7 +210,7 @@ def sites(g):
     return set(g.positions)
 
 
-def check_kernel(ctx, src, S, statics, label, cases):
+def check_kernel(ctx, src, S, statics, label, cases, other=None):
     from bloqade.shuttle.analysis.zone import ZoneAnalysis
     try:
         m = kernels.define(src, S=S)["main"]
@@ -248,6 +252,23 @@ def check_kernel(ctx, src, S, statics, label, cases):
                     ctx.nt((label, src, str(ssa)))
         else:
             ctx.hist("attribution", "no claim")
+    # the hints attached by HintZone are the analysis' answer for THIS spec, also when the kernel was hinted before with another spec
+    if other is not None:
+        try:
+            from kirin import ir
+            from bloqade.shuttle.passes.hint_zone import HintZone
+            m2 = kernels.define(src, S=S)["main"]
+            HintZone(m2.dialects, arch_spec=other)(m2)
+            HintZone(m2.dialects, arch_spec=S)(m2)
+            f2, _ = ZoneAnalysis(m2.dialects, arch_spec=S).run_analysis(m2)
+            stale = [(str(ssa), c18.show(ssa.hints.get("zone.analysis")) if ssa.hints.get("zone.analysis") is not None else "no hint", c18.show(a))
+                     for ssa, a in f2.entries.items() if isinstance(ssa, ir.ResultValue) and ssa.hints.get("zone.analysis") != a]
+            ctx.hist("hints", "hinted twice (other spec, then this spec)")
+            if stale:
+                ctx.fail({"kind": "hint-differs-from-analysis", "history": "HintZone(other spec); HintZone(this spec)"}, dict(rep, history="HintZone with another spec, then with this spec"),
+                         f"after HintZone was re-run with the current spec, {len(stale)} hints still differ from the analysis, e.g. {stale[0][1]} instead of {stale[0][2]}")
+        except Exception as e:
+            ctx.fail({"kind": "hint-pass-raises", "error": type(e).__name__}, rep, f"HintZone raised {type(e).__name__}: {str(e)[:120]}")
     # Coq: the analysis model on the abstracted main block
     prog, nargs, ssa_of = abstract_main(m, S)
     got = [c18.show(entries[s]) if s in entries else "-" for s in ssa_of]
@@ -270,8 +291,9 @@ def run(ctx):
         fullrep = not nonmono and ctx.rng.random() < 0.2
         src = gen_kernel(ctx.rng, zones, invalid=invalid, nonmonotone=nonmono, fullrep=fullrep)
         ctx.hist("stream", ("invalid-name " if invalid else "") + ("non-monotone-indices" if nonmono else "zone-shaped views with a repeated index" if fullrep else "regular"))
+        other = SP[ctx.rng.choice([k for k in SP if k != label])][0]
         for dec, tag in (("", "unfolded"), ("(arch_spec=S)", "folded")):
-            check_kernel(ctx, src.replace("{DEC}", dec), S, zones, f"{label}/{tag}", cases)
+            check_kernel(ctx, src.replace("{DEC}", dec), S, zones, f"{label}/{tag}", cases, other=other if tag == "unfolded" else None)
         if i == 0:
             ctx.sample({"kernel": src.replace("{DEC}", "")[-700:], "spec": label})
     chunks = [cases[i:i + 60] for i in range(0, len(cases), 60)]
